@@ -122,7 +122,7 @@ impl Prop for C13 {
         let ref_sink = SimSink::new(&Sched::Full);
         let wr = s.write(&case.cfg, &ref_ops, ref_sink.clone());
         if wr.panic.is_some() || wr.from_config_err.is_some() || wr.results.iter().any(Result::is_err) {
-            v.push(Violation::new("workload-write-failed", "write", format!("memory run failed: {:?} {:?}", wr.panic, wr.results.iter().find(|r| r.is_err()))));
+            v.push(Violation::new("workload-write-failed", "write", format!("memory run failed: panic {:?}, from_config {:?}, first failed call {:?}", wr.panic, wr.from_config_err, wr.results.iter().find(|r| r.is_err()))));
             return v;
         }
         let image_ref = Rc::new(ref_sink.data());
